@@ -178,4 +178,24 @@ func init() {
 		Assumptions: []string{"as C01; clock = deterministic increasing instants (file names of merge outputs)", "oracle: the newest version of every id, compared field by field, payload and packet references included"},
 		Outside: []string{"merging an already merged output again", "search results over both stacks (C02)", "writer overflow paths", "more than 3 files"},
 	}
+
+	S := func(kv ...int) map[string]int {
+		keys := []string{"queryfrom", "queryforms", "sortings", "limits", "skips", "restricts", "indexfiles"}
+		m := map[string]int{}
+		for i, v := range kv {
+			m[keys[i]] = v
+		}
+		return m
+	}
+	c02 := []HarnessSpec{}
+	names := []string{"id range", "ltime lower bound", "ltime upper bound", "ftime lower bound", "cport equality", "id range OR cport bound (lookup + no lookup)", "cbytes bound", "tag", "sport equality AND id bound", "time: some packet in range"}
+	for f, n := range names {
+		c02 = append(c02, HarnessSpec{Pkg: ix, Func: "ZZ_C02_Search", Solver: "cvc5", Desc: "query form: " + n,
+			Quick: tier(S(f, 1, []int{2, 3, 3, 3, 3, 2, 3, 3, 3, 2}[f], []int{2, 2, 2, 2, 2, 1, 2, 2, 2, 2}[f], []int{1, 2, 2, 2, 2, 1, 2, 2, 2, 1}[f], 1, 2)), Thorough: tier(S(f, 1, 7, 4, 2, 2, 2)),
+			Bounds: "SearchStreams over 1..2 index files (4 visible streams, one id shadowed by the newer file); query thresholds symbolic; sort key list, limit, skip, id restriction (symbolic allow bits) enumerated"})
+	}
+	registry["C02"] = CheckSpec{Property: "C02", Harnesses: c02,
+		Assumptions: []string{"queries are given in normal form (ConditionsSet built directly; the parser side is C03)", "stream population: fixed concrete streams written by the real writer; what varies symbolically are the query constants, tag match bits and the id restriction", "oracle: filter by the harness's own reading of the query on its own stream records, rank by the sort key with ties in any order, page, more <=> matches beyond the page"},
+		Outside: []string{"grouping", "sub-queries feeding variables", "data conditions (C04)", "more than 4 streams / 2 files", "host conditions"},
+	}
 }
